@@ -93,7 +93,7 @@ def textbook_modularity(n, triples, labels, gamma, weights):
     div = Fraction(0)
     for i in range(n):
         for j in range(n):
-            if labels[i] != labels[j]:
+            if labels[i] != labels[j] or labels[i] < 0:      # a negative label: the node is in no cluster (get_membership ignores it)
                 continue
             if weights == 'degree':
                 mod += (A[i][j] - gamma * dout[i] * din[j] / w) / w
@@ -279,6 +279,13 @@ def run_metric(ctx, scratch, rng, quick):
             T, wk = gen.random_weights(rng, E, directed=directed)
             k = rng.randint(1, n)
             lab = [rng.randrange(k) for _ in range(n)]
+            if rng.random() < 0.15:
+                # some nodes left out of every cluster (label -1, as after pruning small clusters), among them both ends of an edge
+                i0, j0 = rng.choice(E)
+                for v_ in {i0, j0, rng.randrange(n)}:
+                    lab[v_] = -1
+                add('rnd_negative_labels', n, n, T, lab)
+                continue
             if rng.random() < 0.2:
                 lab = rename(lab)
             add('rnd_%s_%s' % (shape, fam), n, n, T, lab)
@@ -301,12 +308,15 @@ def run_metric(ctx, scratch, rng, quick):
     for c in cases:
         lc = 'None' if c['labels_col'] is None else '(Some %s)' % clist(c['labels_col'], cnat)
         exprs.append('show_mod (get_modularity %s %s %s %s %s)' % (
-            wmat(c['nr'], c['nc'], c['triples']), clist(c['labels'], cnat), lc,
+            wmat(c['nr'], c['nc'], c['triples']), clist([max(0, x) for x in c['labels']], cnat), lc,
             'Degree' if c['weights'] == 'degree' else 'Uniform', cq(c['gamma'])))
     vals = safe_coq_eval(ctx, 'c06mod', IMPORTS, exprs, prelude=PRELUDE, shard=300)
     if vals is None:
         # model dead (recorded in ctx.proof_broken): the implementation is still judged by the textbook double sum
         vals = [None] * len(cases)
+    # labels are naturals in the hand-written model: cases with negative labels are judged by the textbook sum (and by the terms
+    # regenerated from metrics.py, whose membership matrix ignores negative labels) only
+    vals = [None if any(x < 0 for x in c['labels']) else v for c, v in zip(cases, vals)]
     # ---- implementation + oracle
     src_cases = []
     with Impl(scratch) as impl:
